@@ -348,7 +348,11 @@ impl InnerFilter {
 
     fn absorb_offset_steer(&mut self, steer: f64) {
         self.state = self.state + Vector::new_vector([steer, 0., 0.]);
-        self.filter_time += Duration::from_seconds(steer);
+        // the clock cannot be stepped to before the origin of the timescale
+        self.filter_time = self
+            .filter_time
+            .checked_add(Duration::from_seconds(steer))
+            .unwrap_or_default();
     }
 
     fn predict<const N: usize>(
